@@ -486,6 +486,89 @@ def random_pair(rng):
     return {"part": "pair", "kinds": kinds, "routes": routes, "ops": ops}
 
 
+# ---- (a) one output reconfigured with set_formatter / set_stream: it must render like a fresh Output on the same pair
+RW_TAG = {"named": True, "name": "ta", "sup": "set", "fg": "green", "bg": "none", "at": ["bold"]}
+RW_MSG = [{"k": "open", "tag": RW_TAG}, ONE, {"k": "close", "tag": RW_TAG}, TWO]
+
+
+def run_rewire(case):
+    """case = {route: O (an Output) | IO (a BufferedIO, reconfigured through io.set_formatter and set_stream of both
+    outputs), ops: [new(fk, sa) | set_formatter(fk) | set_stream(sa)], msgs: optional messages (default <ta>1</ta>2)}:
+    every operation acts on the SAME output; after each the message is written.  fk: plain | ansi | forced formatter,
+    sa: the stream reports ANSI support.  One MarkupTrace event per operation (claim 'rewire': TLC decides from fk / sa
+    whether a decorated rendering is expected)."""
+    from clikit.api.io import Output
+    from clikit.formatter import AnsiFormatter, PlainFormatter
+    from clikit.io import BufferedIO
+    from clikit.io.output_stream import BufferedOutputStream
+
+    Rec = G._rec_class()
+    tags = [RW_TAG, TAGS["tb"]]
+
+    def fmt(k):
+        return build(PlainFormatter, tags) if k == "plain" else build(AnsiFormatter, tags, forced=(k == "forced"))
+
+    evs, obj, fk, sa = [], None, None, None
+    for n, op in enumerate(case["ops"]):
+        msg = (case.get("msgs") or [RW_MSG] * len(case["ops"]))[n]
+        res = "ok"
+        try:
+            if op["op"] == "new":
+                fk, sa = op["fk"], op["sa"]
+                if case["route"] == "IO":
+                    obj = BufferedIO(formatter=fmt(fk))
+                    outs = [obj.output, obj.error_output]
+                    if sa:  # BufferedIO builds on plain buffers
+                        raise ValueError("IO route starts on a stream without ANSI support")
+                else:
+                    obj = Output(Rec(BufferedOutputStream(), True if sa else None), fmt(fk))
+                    outs = [obj]
+            elif op["op"] == "set_formatter":
+                fk = op["fk"]
+                (obj if case["route"] == "IO" else outs[0]).set_formatter(fmt(fk))
+            else:
+                sa = op["sa"]
+                for o in outs:
+                    o.set_stream(Rec(BufferedOutputStream(), True if sa else None))
+        except Exception as e:  # noqa
+            res = type(e).__name__
+        ev = {"msg": msg, "base": [], "col": fk == "forced" or (fk == "ansi" and bool(sa)), "how": "rw-%s.%s" % (case["route"], op["op"]),
+              "claim": "rewire", "fk": fk or "plain", "sa": bool(sa), "res": res, "toks": []}
+        if res == "ok":
+            try:
+                if case["route"] == "IO":
+                    which = n % 2
+                    (obj.error if which else obj.write)(markup(msg))
+                    st = outs[which].stream
+                    r = st.text() if hasattr(st, "text") else (obj.fetch_error() if which else obj.fetch_output())
+                    if hasattr(st, "data"):
+                        del st.data[:]
+                    else:
+                        (obj.clear_error if which else obj.clear_output)()
+                else:
+                    st = outs[0].stream
+                    k = len(st.data)
+                    outs[0].write(markup(msg))
+                    r = "".join(st.data[k:])
+                ev["toks"] = tokenise(r)
+            except Exception as e:  # noqa
+                ev["res"] = type(e).__name__
+        evs.append(ev)
+    return evs
+
+
+def random_rewire(rng):
+    route = rng.choice(["O", "O", "IO"])
+    ops = [{"op": "new", "fk": rng.choice(["plain", "ansi", "forced"]), "sa": route == "O" and rng.random() < 0.5}]
+    for _ in range(rng.randint(2, 7)):
+        if rng.random() < 0.5:
+            ops.append({"op": "set_formatter", "fk": rng.choice(["plain", "ansi", "forced"])})
+        else:
+            ops.append({"op": "set_stream", "sa": rng.random() < 0.5})
+    msgs = [random_message(rng, rng.randint(1, 6), balanced=True, names=("ta", "tb"), table={"ta": RW_TAG, "tb": TAGS["tb"]}) for _ in ops]
+    return {"part": "rewire", "route": route, "ops": ops, "msgs": msgs}
+
+
 def norm(x):
     return json.dumps(x, sort_keys=True)
 
@@ -597,6 +680,34 @@ def run_markup(ctx, quick):
         cases.append(case)
         ctx.count()
         ctx.nontriv(("rndpair", i))
+
+    # ---- (a) one output reconfigured: decorated first, undecorated later (and back)
+    r = ctx.model(MSPEC, "MC_MarkupRewire", "MC_MarkupRewire.cfg", name="markup: set_formatter / set_stream on one output", workers=8)
+    recs = G.ordered(T.emitted(r))
+    if len(recs) < 700:
+        raise T.MachineryError("MC_MarkupRewire emitted only %d sequences" % len(recs))
+    nr_mis = 0
+    for nb, rec in enumerate(recs):
+        ops = [{"op": h["op"], "fk": h["fk"], "sa": h["sa"]} for h in rec["ops"]]
+        route = "IO" if nb % 3 == 2 and not ops[0]["sa"] else "O"
+        case = {"part": "rewire", "route": route, "ops": ops}
+        evs = run_rewire(case)
+        ctx.count()
+        ctx.nontriv(("rewire", norm(case)))
+        same = len(evs) == len(rec["ops"]) and all(e["res"] == "ok" and norm(e["toks"]) == norm(h["out"]) for e, h in zip(evs, rec["ops"]))
+        if not same:
+            nr_mis += 1
+        if not same or ctx.rng.random() < 0.1:
+            traces.append(evs)
+            cases.append(case)
+    ctx.extra["rewire_sequences_replayed"] = len(recs)
+    ctx.extra["rewire_sequences_not_reproduced"] = nr_mis
+    for i in range(150 if quick else 3000):
+        case = random_rewire(ctx.rng)
+        traces.append(run_rewire(case))
+        cases.append(case)
+        ctx.count()
+        ctx.nontriv(("rndrewire", i))
 
     # ---- code -> spec: seeded random messages, longer and over more styles than TLC enumerates
     n = 600 if quick else 8000
@@ -767,6 +878,8 @@ def replay_markup(case):
         return run_history(case)
     if case["part"] == "pair":
         return run_pair(case)
+    if case["part"] == "rewire":
+        return run_rewire(case)
     return shared_formatter_trace(case["msgs"], case.get("plain", False), case.get("outputs", False))
 
 
